@@ -216,7 +216,51 @@ def check_heap(case):
     return ("heap", a[0] >= 2.0 ** 31), fails
 
 
-DISPATCH = {"heap": check_heap, "add": check_add, "cmp": check_cmp, "ff": check_from_float, "chain": check_chain}
+def check_update(case):
+    """case = ("upd", a, b, [c...]): an instance advanced in place with update() (as the event handlers do with the
+    time stamps of units) must behave exactly like a fresh instance with the new value."""
+    Time = _time_cls()
+    _, a, b, others = case
+    fails = []
+    t = Time(*a)
+    t.update(Time(*b))
+    fresh = Time(*b)
+    if (t.quotient, t.remainder) != (fresh.quotient, fresh.remainder):
+        fails.append(("update-value", "Time%r.update(Time%r) holds (%r, %r)" % (a, b, t.quotient, t.remainder)))
+    for c in others:
+        o = Time(*c)
+        for op in OPS:
+            for left, right, desc in ((t, o, "updated %s other"), (o, t, "other %s updated")):
+                want = getattr(fresh if left is t else o, op)(o if left is t else fresh)
+                got = getattr(left, op)(right)
+                if bool(got) != bool(want):
+                    fails.append(("update-cmp", "t = Time%r; t.update(Time%r); (%s) with Time%r and %s gives %r, a fresh "
+                                  "Time%r gives %r" % (a, b, desc % op, c, op, got, b, want)))
+        if not math.isinf(b[0]) and not math.isinf(c[0]):
+            if (t - o) != (fresh - o) or (o - t) != (o - fresh):
+                fails.append(("update-sub", "after update the difference to Time%r differs from a fresh instance" % (c,)))
+    if not math.isinf(b[0]):
+        s1, s2 = t + 0.75, fresh + 0.75
+        if (s1.quotient, s1.remainder) != (s2.quotient, s2.remainder):
+            fails.append(("update-add", "after update, + 0.75 gives %r, a fresh instance %r" % (s1, s2)))
+    # the list scheduler orders instances that were updated in place
+    from jellyfysh.scheduler.list_scheduler import ListScheduler
+    for c in others[:6]:
+        if math.isinf(c[0]) or math.isinf(b[0]):
+            continue
+        sch = ListScheduler()
+        sch.push_event(t, "U")
+        sch.push_event(Time(*c), "C")
+        o = _order(b, c)
+        got = sch.get_succeeding_event()
+        want = {"U"} if o < 0 else {"C"} if o > 0 else {"U", "C"}
+        if got not in want:
+            fails.append(("update-cmp", "ListScheduler with an updated Time%r (now %r) and Time%r returned %r"
+                          % (a, b, c, got)))
+    return ("upd", a[0] >= 2.0 ** 31), fails
+
+
+DISPATCH = {"upd": check_update, "heap": check_heap, "add": check_add, "cmp": check_cmp, "ff": check_from_float, "chain": check_chain}
 
 
 def check_case(case):
@@ -235,6 +279,11 @@ def cases(ctx):
     finite = [t for t in times if not math.isinf(t[0])]
     for a in finite:
         yield ("heap", a, finite)
+    sub = [(0.0, 0.25), (0.0, 0.5), (1.0, 0.25), (1.0, down(0.5)), (1.0, 0.5), (2.0, 0.0), (2.0 ** 31, 0.5),
+           (2.0 ** 52, 0.25), (INF, INF)]
+    for a in sub:
+        for b in sub:
+            yield ("upd", a, b, sub)
     for x in uniq([q + r for q in Q for r in R] + D + [2.0 ** 53, 2.0 ** 60 + 2.0 ** 9, 1e300]):
         yield ("ff", x)
     # histories of additions (BFS over sequences; alphabet simplest first)
